@@ -31,6 +31,13 @@ def scenarios(thorough):
         out.append(cc.mk([{"k": 1, "kind": "http10"}], use_poll=use_poll, room=0, extra_client=slow, name="http10 close-delimited slow %s" % tag,
                          apps={1: {"chunks": [10, 10], "cl": "none"}}))
     out.append(cc.mk([P(1), {"k": 2, "kind": "expect"}], lookahead=1, split="joinheads", waits=(2,), room=0, read_before_await=True, name="expect waits, slow"))
+    # a send error while the producer is paused above the watermark: the I/O loop closes the channel and the producer is released
+    import errno
+    for nth in (2, 3):
+        for e in (errno.EINVAL, errno.ENOBUFS):
+            out.append(cc.mk([P(1)], room=10, extra_client=[["read_after_block", 2, 20], ["readall_after_block", 3]], drains=False,
+                             faults={"send": [None] * nth + [e]}, apps={1: {"chunks": [40, 40, 40], "cl": "none"}},
+                             adj={"outbuf_high_watermark": 30}, name="producer over watermark, send#%d fails %s" % (nth + 1, errno.errorcode[e])))
     # degenerate marks: a drain that ends exactly on the mark must release the producer
     out.append(cc.mk([P(1)], room=40, extra_client=[["read", 30], ["read", 45], ["readall"]], apps={1: {"chunks": [30, 30, 30], "cl": "none"}},
                      adj={"outbuf_high_watermark": 0, "send_bytes": 1}, name="producer over watermark 0"))
